@@ -1,6 +1,7 @@
 package main
 
 import (
+	"strings"
 	"fmt"
 
 	"github.com/influxdata/influxql"
@@ -139,6 +140,14 @@ func propC19(o *out, r *rng, thorough bool) {
 				}
 				c19One(o, text, "cardinality-matrix")
 			}
+		}
+	}
+	// every kind of measurement name as a source, alone, second, nested, explained, as a target: a name is just a name
+	for _, n := range []string{"_series", "_fieldKeys", "_measurements", "_tagKeys", "_tagKey", "_tags", "_name", "_internal", "\"select\"", "\"my m\"", "\"\"", "m", "\"time\"", "\"_series\"", "\"日本\"", "\"a.b\""} {
+		for _, form := range []string{"SELECT * FROM secret..%s", "SELECT * FROM db0..cpu, secret.autogen.%s", "SELECT v FROM (SELECT v FROM (SELECT v FROM secret.rp.%s))", "EXPLAIN SELECT v FROM secret..%s",
+			"SELECT v INTO secret..%s FROM db0..cpu", "SELECT v FROM secret..%s, (SELECT v FROM other..%s)", "EXPLAIN ANALYZE SELECT v INTO t FROM a..%s",
+			"SHOW TAG VALUES CARDINALITY ON db FROM %s WITH KEY = k", "SHOW SERIES EXACT CARDINALITY ON db FROM %s", "DELETE FROM %s", "SHOW FIELD KEYS ON db FROM %s", "DROP SERIES FROM %s"} {
+			c19One(o, strings.Replace(form, "%s", n, -1), "name-matrix")
 		}
 	}
 	// deep nesting, many sources, every target form
